@@ -482,7 +482,7 @@ func (p *c21Prop) genCase(seed uint64, tier string) *c21Case {
 			if c.Workload == "writers" || (c.Workload == "mixed" && i%2 == 1) {
 				at := r.Intn(len(c.Tasks[i]) + 1)
 				ops := append([]Op{}, c.Tasks[i][:at]...)
-				ops = append(ops, Op{K: "setreq", A: map[string]string{"i": "0"}})
+				ops = append(ops, Op{K: "setreq", A: map[string]string{"i": "0", "opt": strconv.Itoa(1 + i%3)}}) // the first request, with an option set that differs from task to task
 				c.Tasks[i] = append(ops, c.Tasks[i][at:]...)
 				// ... and unmarshals the same decoded document (the one with module-qualified names)
 				at = r.Intn(len(c.Tasks[i]) + 1)
@@ -640,8 +640,19 @@ func (w *c21World) runOp(op Op, root ygot.GoStruct) string {
 			case 4:
 				opts = append(opts, &ygot.DiffPathOpt{MapToSinglePath: true, PreferShadowPath: true}, &ygot.IgnoreAdditions{})
 			}
-			n, err := ygot.Diff(w.T, w.T2, opts...)
+			b := w.T2
+			if (idx/5)%4 == 0 {
+				b = w.T // nothing has changed since the last poll: the common case of a telemetry loop
+			}
+			n, err := ygot.Diff(w.T, b, opts...)
 			out = short([]byte(canonNotif(n))) + " " + normErr(err)
+			if n != nil {
+				out = fmt.Sprintf("pfx=%v %s", n.Prefix != nil, out)
+				// the caller owns the result: it stamps it before sending it on, as Diff's
+				// documentation asks ("the timestamp is not set")
+				n.Timestamp = int64(idx) + 1
+				n.Prefix = &gpb.Path{Target: "dut-" + strconv.Itoa(idx%7)}
+			}
 		case "diffatomic":
 			var opts []ygot.DiffOpt
 			switch idx % 3 {
@@ -740,7 +751,20 @@ func (w *c21World) runOp(op Op, root ygot.GoStruct) string {
 			}
 			req := w.reqs[pick(n)]
 			schema := &ytypes.Schema{Root: root, SchemaTree: w.schema.SchemaTree, Unmarshal: w.p.Unmarshal}
-			out = normErr(ytypes.UnmarshalSetRequest(schema, req))
+			var uopts []ytypes.UnmarshalOpt
+			oset := (idx / 4) % 4
+			if o := op.arg("opt"); o != "" {
+				oset, _ = strconv.Atoi(o)
+			}
+			switch oset {
+			case 1:
+				uopts = append(uopts, &ytypes.IgnoreExtraFields{})
+			case 2:
+				uopts = append(uopts, &ytypes.PreferShadowPath{})
+			case 3:
+				uopts = append(uopts, &ytypes.PreferShadowPath{}, &ytypes.IgnoreExtraFields{})
+			}
+			out = normErr(ytypes.UnmarshalSetRequest(schema, req, uopts...))
 		default:
 			panic("C21: unknown op " + op.K)
 		}
